@@ -605,6 +605,15 @@ def check_tts(ctx, repo):
     mod = repo.module(SPLIT)
     fn = repo.func(SPLIT, "temporal_train_test_split")
     loc = ctx.loc(mod, fn)
+    # a size argument is never silently ignored: fh together with test_size or train_size is rejected (exact path condition)
+    from ..boolx import Atomizer, PathConditions, atom as _A, neg as _N, conj as _C, disj as _D, equivalent as _eqv, show as _sh, bind_repo as _br
+    _br(repo)
+    pc = PathConditions(fn, Atomizer())
+    spec = _C(_N(_A("isnone(fh)")), _D(_N(_A("isnone(test_size)")), _N(_A("isnone(train_size)"))))
+    okx, wit = _eqv(pc.raises, spec)
+    ctx.check(bool(okx), "R5", "temporal_train_test_split:size-or-horizon", "fh given together with a size is rejected (neither is silently dropped)",
+              "the split rejects iff %s; with the horizon taking precedence a given test_size / train_size must be rejected, otherwise it is "
+              "silently ignored (differing case %s)" % (_sh(pc.raises), wit), loc, witness=wit)
     calls = [c for c in ast.walk(fn) if isinstance(c, ast.Call)]
     tts = [c for c in calls if (repo.resolve_expr(mod, c.func) or None) is not None
            and repo.resolve_expr(mod, c.func).dotted == "sklearn.model_selection.train_test_split"]
